@@ -9,6 +9,7 @@ package zzcttest
 import (
 	"crypto"
 	"crypto/sha512"
+	"math/big"
 	"testing"
 
 	"github.com/oasisprotocol/curve25519-voi/curve"
@@ -20,6 +21,7 @@ import (
 	"github.com/oasisprotocol/curve25519-voi/primitives/ed25519/extra/ecvrf"
 	"github.com/oasisprotocol/curve25519-voi/primitives/sr25519"
 	"github.com/oasisprotocol/curve25519-voi/primitives/x25519"
+	"pgregory.net/rapid"
 	h "verifh"
 )
 
@@ -73,6 +75,24 @@ func c08nonzero(b []byte) {
 }
 
 var c08sink int
+
+var c08L = new(big.Int).Add(new(big.Int).Lsh(big.NewInt(1), 252), c08mustBig("27742317777372353535851937790883648493"))
+
+func c08rev(b []byte) []byte {
+	o := make([]byte, len(b))
+	for i := range b {
+		o[len(b)-1-i] = b[i]
+	}
+	return o
+}
+
+func c08mustBig(dec string) *big.Int {
+	v, ok := new(big.Int).SetString(dec, 10)
+	if !ok {
+		panic("c08: bad integer literal")
+	}
+	return v
+}
 
 func c08ops() map[string]zzcth.Op {
 	ops := map[string]zzcth.Op{}
@@ -424,6 +444,180 @@ func c08ops() map[string]zzcth.Op {
 			}
 		}
 	}}
+
+	// -------------------------------------------- secret keys: load, store, compare
+	//
+	// Secret scalars at the edge of the canonical range [0, L): 2^252-1, 2^252,
+	// L-1, ... all are valid keys, and a canonicity test that is fine for
+	// PUBLIC input validation ("variable-time code is acceptable") must not
+	// tell them apart when the input is a secret key.
+	canon := func(t *rapid.T, label string) []byte {
+		l := new(big.Int).Add(new(big.Int).Lsh(big.NewInt(1), 252), c08mustBig("27742317777372353535851937790883648493"))
+		p252 := new(big.Int).Lsh(big.NewInt(1), 252)
+		var v *big.Int
+		switch rapid.IntRange(0, 9).Draw(t, label+"_k") {
+		case 0:
+			v = big.NewInt(0)
+		case 1:
+			v = big.NewInt(int64(rapid.IntRange(1, 300).Draw(t, label+"_small")))
+		case 2:
+			v = new(big.Int).Sub(p252, big.NewInt(int64(rapid.IntRange(1, 300).Draw(t, label+"_d"))))
+		case 3:
+			v = new(big.Int).Add(p252, big.NewInt(int64(rapid.IntRange(0, 300).Draw(t, label+"_d"))))
+		case 4:
+			v = new(big.Int).Sub(l, big.NewInt(int64(rapid.IntRange(1, 300).Draw(t, label+"_d"))))
+		case 5: // between 2^252 and L, anywhere
+			v = new(big.Int).Add(p252, new(big.Int).Mod(new(big.Int).SetBytes(h.UniformBytes(t, 20, label+"_u")), new(big.Int).Sub(l, p252)))
+		default:
+			v = new(big.Int).Mod(new(big.Int).SetBytes(h.UniformBytes(t, 40, label+"_u")), l)
+		}
+		be := v.FillBytes(make([]byte, 32))
+		for i, j := 0, 31; i < j; i, j = i+1, j-1 {
+			be[i], be[j] = be[j], be[i]
+		}
+		return be
+	}
+	ops["scalar.SetCanonicalBytes(secret)"] = zzcth.Op{SecretLen: 32, PubLen: 0, Fix: func(s []byte) { s[31] &= 0x0f },
+		Pair: func(t *rapid.T) ([]byte, []byte, string) { return canon(t, "a"), canon(t, "b"), "canonical-edge" },
+		Prep: func(pub, sec []byte) func() {
+			return func() {
+				s, err := scalar.NewFromCanonicalBytes(sec)
+				if err != nil {
+					panic(err)
+				}
+				if !s.IsCanonical() {
+					panic("not canonical")
+				}
+				var u scalar.Scalar
+				if err := u.UnmarshalBinary(sec); err != nil {
+					panic(err)
+				}
+				if _, err := u.MarshalBinary(); err != nil {
+					panic(err)
+				}
+			}
+		}}
+	ops["sr25519.SecretKey.load+store"] = zzcth.Op{SecretLen: 64, PubLen: 0, Fix: func(s []byte) { s[31] &= 0x0f },
+		Pair: func(t *rapid.T) ([]byte, []byte, string) {
+			return append(canon(t, "a"), h.UniformBytes(t, 32, "an")...), append(canon(t, "b"), h.UniformBytes(t, 32, "bn")...), "canonical-edge"
+		},
+		Prep: func(pub, sec []byte) func() {
+			return func() {
+				sk, err := sr25519.NewSecretKeyFromBytes(sec)
+				if err != nil {
+					panic(err)
+				}
+				if _, err := sk.MarshalBinary(); err != nil {
+					panic(err)
+				}
+				var sk2 sr25519.SecretKey
+				if err := sk2.UnmarshalBinary(sec); err != nil {
+					panic(err)
+				}
+				kb, err := sk.KeyPair().MarshalBinary()
+				if err != nil {
+					panic(err)
+				}
+				if _, err := sr25519.NewKeyPairFromBytes(kb); err != nil {
+					panic(err)
+				}
+			}
+		}}
+	// Two keys A and B (both secret): the comparison must do the same work
+	// whether they agree entirely, in the scalar only, in the nonce only or
+	// nowhere - and the two RUNS of a case differ in exactly that.
+	keyPair := func(half int) func(t *rapid.T) ([]byte, []byte, string) {
+		one := func(t *rapid.T, label string) ([]byte, string) {
+			rel := rapid.SampledFrom([]string{"equal", "first-half-differs", "second-half-differs", "both-differ", "last-byte-differs", "first-byte-differs"}).Draw(t, label+"rel")
+			if half == 0 {
+				// 32-byte keys without structure: any bytes are valid
+				a := h.UniformBytes(t, 32, label+"m")
+				b := append([]byte(nil), a...)
+				switch rel {
+				case "first-half-differs":
+					b[1] ^= 4
+				case "second-half-differs":
+					b[19] ^= 1
+				case "both-differ":
+					b[1] ^= 4
+					b[19] ^= 1
+				case "last-byte-differs":
+					b[31] ^= 0x10
+				case "first-byte-differs":
+					b[0] ^= 1
+				}
+				return append(a, b...), rel
+			}
+			// scalar (canonical, possibly at the edge of the range) || nonce
+			sa, na := canon(t, label+"s"), h.UniformBytes(t, half, label+"n")
+			sb, nb := append([]byte(nil), sa...), append([]byte(nil), na...)
+			other := func() []byte {
+				o := canon(t, label+"s2")
+				if string(o) == string(sa) { // keep "differs" true: 0 <-> 1
+					o = make([]byte, 32)
+					if sa[0] == 0 {
+						o[0] = 1
+					}
+				}
+				return o
+			}
+			switch rel {
+			case "first-half-differs":
+				sb = other()
+			case "second-half-differs":
+				nb[3] ^= 1
+			case "both-differ":
+				sb = other()
+				nb[3] ^= 1
+			case "last-byte-differs":
+				nb[half-1] ^= 0x10
+			case "first-byte-differs":
+				sb = other()
+				sb[1], sb[2] = sa[1], sa[2] // may or may not stay different/canonical: re-canonicalised below
+				if new(big.Int).SetBytes(c08rev(sb)).Cmp(c08L) >= 0 || string(sb) == string(sa) {
+					sb = other()
+				}
+			}
+			return append(append(append(sa, na...), sb...), nb...), rel
+		}
+		return func(t *rapid.T) ([]byte, []byte, string) {
+			x, rx := one(t, "x")
+			y, ry := one(t, "y")
+			return x, y, "keys:" + rx + "/" + ry
+		}
+	}
+	ops["sr25519.SecretKey.Equal"] = zzcth.Op{SecretLen: 128, PubLen: 0, Fix: func(s []byte) { s[31] &= 0x0f; s[64+31] &= 0x0f }, Pair: keyPair(32),
+		Prep: func(pub, sec []byte) func() {
+			a, err1 := sr25519.NewSecretKeyFromBytes(sec[:64])
+			b, err2 := sr25519.NewSecretKeyFromBytes(sec[64:])
+			if err1 != nil || err2 != nil {
+				panic("c08: key pair not canonical")
+			}
+			return func() {
+				if a.Equal(b) {
+					c08sink++
+				}
+			}
+		}}
+	ops["sr25519.MiniSecretKey.Equal"] = zzcth.Op{SecretLen: 64, PubLen: 0, Pair: keyPair(0),
+		Prep: func(pub, sec []byte) func() {
+			a, _ := sr25519.NewMiniSecretKeyFromBytes(sec[:32])
+			b, _ := sr25519.NewMiniSecretKeyFromBytes(sec[32:])
+			return func() {
+				if a.Equal(b) {
+					c08sink++
+				}
+			}
+		}}
+	ops["sr25519.NewSecretKeyFromEd25519Bytes"] = zzcth.Op{SecretLen: 64, PubLen: 0, Fix: func(s []byte) { s[0] &= 0xf8; s[31] = s[31]&0x3f | 0x40 },
+		Prep: func(pub, sec []byte) func() {
+			return func() {
+				if _, err := sr25519.NewSecretKeyFromEd25519Bytes(sec); err != nil {
+					panic(err)
+				}
+			}
+		}}
+	ops["ecvrf.ProveWithAddedRandomness_v10/fixed-public-half"] = vrfOp(true, true, true)
 
 	// ---------------------------------------------------------------- subtle
 	ops["subtle"] = zzcth.Op{SecretLen: 32, PubLen: 32, Prep: func(pub, sec []byte) func() {
